@@ -57,6 +57,8 @@ def oas30_to_2020(s: Any) -> Any:
         return [oas30_to_2020(x) for x in s]
     if not isinstance(s, dict):
         return s
+    if "$ref" in s:
+        return {"$ref": s["$ref"]}       # OpenAPI 3.0: the siblings of $ref are ignored
     out = {}
     for kw, val in s.items():
         if kw == "nullable":
